@@ -544,7 +544,18 @@ func c20Show(c *Config) string {
 
 // ---------------------------------------------------------------- execution + oracle
 
-func runC20Merge(c *vt.Ctx, s c20MergeScenario) {
+// c20Reporter is what the oracle needs from its driver: *vt.Ctx under rapid, a thin
+// adapter over *testing.T under the native fuzzer (zz_verif_c20_fuzz_test.go).
+type c20Reporter interface {
+	Fatalf(format string, args ...any)
+	Label(l string)
+	NonTrivial()
+	Trace(format string, args ...any)
+}
+
+func runC20Merge(c *vt.Ctx, s c20MergeScenario) { c20JudgeMerge(c, s) }
+
+func c20JudgeMerge(c c20Reporter, s c20MergeScenario) {
 	base, overlay := []byte(s.Base), []byte(s.Overlay)
 
 	got, gotErr := MergeConfigAndUnmarshal(overlay, base)
